@@ -2,6 +2,10 @@ import PsV.Proofs.Fits
 import PsV.Proofs.FitsCodec
 import PsV.Proofs.FitsRead
 import PsV.Proofs.FitsBridge
+import PsV.Proofs.FitsLayout
+import PsV.Proofs.FitsBits
+import PsV.Proofs.FitsAccepted
+import PsV.Proofs.FitsWriteKey
 /-!
 # C06 — FITS serialisation round-trips every table exactly, in the documented layout
 
@@ -229,5 +233,263 @@ example (E : Ext) : Storable exValidTable ∧ DimsWF exValidTable ∧ Encodable 
     have : i = 0 := by simp [Table.ndim, exValidTable] at hi; omega
     subst this; decide
   · constructor <;> first | decide | (intro p hp; cases hp) | (intro h; exact absurd rfl h)
+
+/-! ## the documented layout, as an independent specification (`PsV/Model/FitsLayout.lean`)
+
+`Layout.layoutBytes E t` lists the bytes of the file for table `t` directly from the FITS standard and the photospline
+documentation (80-column fixed-format records, `END`, 2880-byte blocks, primary `BITPIX = -32` image with
+`NAXISj = naxes[ndim-j]`, `TYPE`, `ORDERi`, `PERIODi`, aux string keywords, one `BITPIX = -64` `KNOTSi` image extension per
+dimension, an `EXTENTS` extension when there are extents) — without the cfitsio model, `fmtCard` or `encodeFits`.  The
+driver compares it with the real writer's bytes on every run. -/
+
+/-- **The encoder meets the documented layout**, for all tables: what the model of `write_fits_core` (over the model of
+    cfitsio and the generic card / block encoder) produces is, byte for byte, the file the specification describes. -/
+theorem encoder_meets_layout (E : Ext) (t : Table) (h : Storable t) (he : Encodable E t) :
+    encodeFits (writeCore E t) = Layout.layoutBytes E t :=
+  Layout.encode_writeCore_eq_layout E t he h.order_lt h.coef_len h.extents_len
+
+/-- satisfiable: the 2 × 3 table with extents, periods and aux values with apostrophes -/
+example : Storable exT ∧ Encodable exExt0 exT := ⟨by constructor <;> decide, exT_encodable⟩
+
+/-- **A file in the documented layout, produced by an independent writer, is read as the table it describes.** -/
+theorem layout_file_is_read (E : Ext) (t : Table) (h : Storable t) (hw : DimsWF t) (he : Encodable E t) :
+    ∃ f t', decodeFits (Layout.layoutBytes E t) = some f ∧ readFixed E f = .ok t' ∧ Reread E t t' := by
+  rw [← encoder_meets_layout E t h he]
+  exact C06_bytes_roundtrip E t h hw he
+
+example (E : Ext) : Storable exValidTable ∧ DimsWF exValidTable ∧ Encodable E { exValidTable with periods := none } := by
+  refine ⟨by constructor <;> decide, ?_, ?_⟩
+  · intro i hi
+    have : i = 0 := by simp [Table.ndim, exValidTable] at hi; omega
+    subst this; decide
+  · constructor <;> first | decide | (intro p hp; cases hp) | (intro h; exact absurd rfl h)
+
+/-- the name an independent reader sees for an extension: the string value of its `EXTNAME` keyword -/
+def extName (h : Hdu) : Option Str := (findCard h.cards "EXTNAME".toList).bind (c2s ·.val)
+
+/-- **An independent FITS reader recovers the same arrays** from a file in the documented layout: the generic decoder
+    (which knows nothing of photospline) finds a primary `float` image with the reversed axes holding exactly the
+    coefficient words, then one `double` image per dimension with `EXTNAME = KNOTSi` holding exactly the knot vector, then
+    — when the table has extents — a `double` image of `2·ndim` values with `EXTNAME = EXTENTS` holding the extents. -/
+theorem independent_reader_arrays (E : Ext) (t : Table) (h : Storable t) (he : Encodable E t) :
+    ∃ prim, decodeFits (Layout.layoutBytes E t)
+        = some (prim :: ((List.range t.ndim).map (knotHdu t) ++ extentsHdus t)) ∧
+      prim.axes = t.naxes.reverse ∧ prim.pix = .f32 t.coef ∧
+      (∀ i, i < t.ndim → (knotHdu t i).axes = [(t.knots.getD i []).length] ∧
+          (knotHdu t i).pix = .f64 (t.knots.getD i []) ∧
+          extName (knotHdu t i) = some ("KNOTS".toList ++ Layout.dec i)) ∧
+      (∀ e, t.extents = some e → ∃ x, extentsHdus t = [x] ∧ x.axes = [2 * t.ndim] ∧ x.pix = .f64 e ∧
+          extName x = some "EXTENTS".toList) := by
+  have hname : ∀ (axes : List Nat) (pix : Pix) (nm : Str), extName (extHdu axes pix nm) = c2s (s2c nm) := by
+    intro axes pix nm
+    show (findCard [cardStr "EXTNAME".toList nm []] "EXTNAME".toList).bind (c2s ·.val) = _
+    rw [findCard_single_hit (cardStr "EXTNAME".toList nm []) "EXTNAME".toList rfl]
+    rfl
+  refine ⟨primHdu E false t, ?_, wAxes_eq t h.naxes_len, ?_, ?_, ?_⟩
+  · rw [← encoder_meets_layout E t h he, written_bytes_decode E t he]
+    rfl
+  · show Pix.f32 (t.coef.take (prod (wAxes t))) = _
+    rw [wAxes_eq t h.naxes_len, prod_reverse, List.take_of_length_le (by rw [h.coef_len]; exact Nat.le_refl _)]
+  · intro i hi
+    refine ⟨rfl, rfl, ?_⟩
+    rw [knotHdu_eq, hname, keyN_knots_ok i (by have := h.ndim_le; omega), Layout.keyN_eq]
+  · intro e he'
+    refine ⟨extHdu [2 * t.ndim] (.f64 e) "EXTENTS".toList, ?_, rfl, rfl, ?_⟩
+    · unfold extentsHdus
+      rw [he']
+      simp only
+      rw [updateKey_createImg, List.take_of_length_le (by rw [h.extents_len e he']; exact Nat.le_refl _)]
+    · rw [hname, extents_name_ok]
+
+example : Storable exT ∧ Encodable exExt0 exT ∧ exT.extents = some [2, 2, 13, 13] :=
+  ⟨by constructor <;> decide, exT_encodable, rfl⟩
+
+/-- **Reversed axis order is the right one**: in a FITS image the first axis varies fastest; with the axes written in
+    reversed order (`NAXISj = naxes[ndim-j]`, part of `Layout.primaryHeader`) the pixel with the reversed coordinates of
+    a multi-index is element `Σ idx[i]·strides[i]` of the row-major coefficient array — so the array is stored in
+    memory order and coefficient `idx` is pixel `(idx[n-1]+1, …, idx[0]+1)`. -/
+theorem reversed_axes_are_row_major (naxes idx : List Nat) (h : naxes.length = idx.length) :
+    Layout.fitsIndex naxes.reverse idx.reverse = Layout.tableIndex (rowMajor naxes) idx :=
+  Layout.fitsIndex_reverse naxes idx h
+
+/-- a 2 × 3 × 4 table: coefficient (1,2,3) is element 1·12 + 2·4 + 3 = 23, which is pixel (3,2,1) of the 4 × 3 × 2
+    image; the reversal matters: coefficient (1,0,0) is element 12, whereas pixel (1,0,0) of an image whose axes were
+    not reversed would be element 1 -/
+example : Layout.fitsIndex [4, 3, 2] [3, 2, 1] = 23 ∧ Layout.tableIndex (rowMajor [2, 3, 4]) [1, 2, 3] = 23 ∧
+    Layout.tableIndex (rowMajor [2, 3, 4]) [1, 0, 0] = 12 ∧ Layout.fitsIndex [2, 3, 4] [1, 0, 0] = 1 := by decide
+
+/-! ## coefficients are copied bit for bit, both ways (NaN payloads, infinities, denormals, -0 included) -/
+
+/-- **Writing**: the primary data start at a block boundary and the four bytes at offset `4·j` are the big-endian bit
+    pattern of `coef[j]` — no case distinction on the pattern anywhere. -/
+theorem coefficient_bits_written (E : Ext) (t : Table) (h : Storable t) (he : Encodable E t) (j : Nat)
+    (hj : j < t.coef.length) :
+    ∃ hdr rest, encodeFits (writeCore E t) = hdr ++ rest ∧ hdr.length % 2880 = 0 ∧
+      (rest.drop (4 * j)).take 4 = be32 t.coef[j] := by
+  obtain ⟨hdr, rest, h1, _, h3, h4⟩ := Layout.layout_coef_bytes E t j hj
+  exact ⟨hdr, rest, by rw [encoder_meets_layout E t h he, h1], h3, by rw [h4, Layout.be32_eq]⟩
+
+/-- satisfiable with NaN patterns: `exAccepted` holds a negative quiet NaN with payload and a signalling NaN -/
+example (E : Ext) : Encodable E exAccepted ∧ exAccepted.coef.map isNaN32 = [true, true] :=
+  ⟨(exAccepted_ok E).encodable, by decide⟩
+
+/-- **Reading**, for any byte string the decoder accepts and the reader reads: the table's coefficient words,
+    re-encoded big-endian, are exactly the bytes of the file from a block boundary on.  (Only a `BITPIX = -32` primary
+    image is copied; a `BITPIX = -64` one goes through `E.d2f`, see `read_coef_verbatim`.) -/
+theorem coefficient_bits_read (E : Ext) (b : Bytes) (h0 : Hdu) (rest : List Hdu) (d : List UInt32) (t : Table)
+    (hd : decodeFits b = some (h0 :: rest)) (hp : h0.pix = .f32 d)
+    (hr : readFixed E (h0 :: rest) = .ok t ∨ readCore E (h0 :: rest) = .ok t) :
+    ∃ off, off % 2880 = 0 ∧ enc32 t.coef = (b.drop off).take (4 * t.coef.length) := by
+  obtain ⟨off, h1, h2, h3⟩ := decodeFits_f32_bits b h0 rest d hd hp
+  obtain ⟨_, h5⟩ := read_coef_verbatim E h0 rest t hr
+  rw [hp] at h5
+  simp only at h5
+  have hcd : t.coef = d := by
+    rw [h5]
+    apply List.take_of_length_le
+    rw [h2, npix]
+    split
+    · exact Nat.zero_le _
+    · exact Nat.le_refl _
+  rw [hcd]
+  exact ⟨off, h1, h3⟩
+
+/-- satisfiable: the bytes written for `exAccepted` decode, and are read -/
+example (E : Ext) : ∃ b h0 rest d t, decodeFits b = some (h0 :: rest) ∧ h0.pix = .f32 d ∧
+    readFixed E (h0 :: rest) = .ok t := by
+  have hA := exAccepted_ok E
+  have hS : Storable exAccepted := ⟨hA.ndim_pos, hA.ndim_le, hA.knots_len, hA.naxes_len, hA.knots_ne, hA.strides_rm,
+    hA.coef_len, hA.order_lt, hA.extents_len, hA.periods_len, hA.aux_storable⟩
+  obtain ⟨t', ht', _⟩ := C06_roundtrip E exAccepted hS hA.dims
+  exact ⟨_, _, _, _, t', written_bytes_decode E exAccepted hA.encodable, rfl, ht'⟩
+
+/-- **NaN coefficients** survive the round trip with sign, quiet bit and payload: a corollary of `Reread` stated on the
+    bit patterns (`operator==` is IEEE comparison and cannot see this; the check compares bits). -/
+theorem nan_bits_preserved (E : Ext) (t t' : Table) (h : Reread E t t') :
+    t'.coef.map isNaN32 = t.coef.map isNaN32 ∧
+    ∀ j, isNaN32 (t.coef.getD j 0) = true → t'.coef.getD j 0 = t.coef.getD j 0 := by
+  obtain ⟨_, _, _, _, hc, _⟩ := h
+  rw [hc]
+  exact ⟨rfl, fun _ _ => rfl⟩
+
+/-- not vacuous: the table read back for `exAccepted` has the two NaN patterns at their places -/
+example (E : Ext) : ∃ t', readFixed E (writeCore E exAccepted) = .ok t' ∧ Reread E exAccepted t' ∧
+    t'.coef = [0xffc00001, 0x7fa00000] ∧ t'.coef.map isNaN32 = [true, true] := by
+  have hA := exAccepted_ok E
+  have hS : Storable exAccepted := ⟨hA.ndim_pos, hA.ndim_le, hA.knots_len, hA.naxes_len, hA.knots_ne, hA.strides_rm,
+    hA.coef_len, hA.order_lt, hA.extents_len, hA.periods_len, hA.aux_storable⟩
+  obtain ⟨t', ht', hre⟩ := C06_roundtrip E exAccepted hS hA.dims
+  have hc : t'.coef = exAccepted.coef := hre.2.2.2.2.1
+  exact ⟨t', ht', hre, hc, by rw [hc]; decide⟩
+
+/-! ## number text and float⇄double conversion (the parameters `E`) -/
+
+/-- **`PERIODn` for every formatter and parser**: each period `x` comes back as `parseD (fmtD x)` (`0` when the text
+    cannot be read back).  Hence the periods survive exactly iff the parser inverts the formatter on the values that
+    occur — the residual assumption about cfitsio's `%.15G` text, which does not hold for every double (C06 leaves
+    period values out of the property; the generator draws multiples of 0.25). -/
+theorem period_text_roundtrip (E : Ext) (t : Table) (h : Storable t) :
+    ∃ t', readCore E (writeCore E t) = .ok t' ∧ Reread E t t' ∧
+      ∀ p, t.periods = some p →
+        t'.periods = some (p.map fun x => (E.parseD (E.fmtD x)).getD 0) ∧
+        (t'.periods = some p ↔ ∀ x ∈ p, (E.parseD (E.fmtD x)).getD 0 = x) := by
+  obtain ⟨t', ht', hre⟩ := C06_roundtrip_core E t h
+  have hrt : readCore E (writeCore E t) = .ok (rereadTable E t) :=
+    readCore_writeGen E t false h.ndim_pos h.ndim_le h.knots_len h.naxes_len h.knots_ne
+      h.strides_rm h.coef_len h.order_lt h.extents_len h.aux_ok (fun hs => Bool.noConfusion hs)
+  have hEq : t' = rereadTable E t := Except.ok.inj (ht'.symm.trans hrt)
+  refine ⟨t', ht', hre, ?_⟩
+  intro p hp
+  have hper : t'.periods = some (p.map fun x => (E.parseD (E.fmtD x)).getD 0) := by
+    rw [hEq]
+    show some (rdPeriods E t) = _
+    rw [rdPeriods_map E t p hp (h.periods_len p hp)]
+  refine ⟨hper, ?_⟩
+  rw [hper, Option.some.injEq]
+  exact map_eq_self_iff _ p
+
+/-- satisfiable with periods present -/
+example : Storable exTable ∧ exTable.periods = some [0, 7] := ⟨by constructor <;> decide, rfl⟩
+
+/-- **The float⇄double conversions are never applied** when a written file is read back (coefficients are written and
+    read as `float`, knots and extents as `double`): the result depends on `E` through `parseD ∘ fmtD` only. -/
+theorem conversions_not_used (E E' : Ext) (t : Table) (h : Storable t)
+    (hn : ∀ x, E.parseD (E.fmtD x) = E'.parseD (E'.fmtD x)) :
+    readCore E (writeCore E t) = readCore E' (writeCore E' t) := by
+  have hrt : ∀ E : Ext, readCore E (writeCore E t) = .ok (rereadTable E t) := fun E =>
+    readCore_writeGen E t false h.ndim_pos h.ndim_le h.knots_len h.naxes_len h.knots_ne
+      h.strides_rm h.coef_len h.order_lt h.extents_len h.aux_ok (fun hs => Bool.noConfusion hs)
+  rw [hrt E, hrt E']
+  unfold rereadTable
+  rw [rdPeriods_congr E E' t hn]
+
+/-- two different pairs of conversions, same number text -/
+example : ∀ x, exExt0.parseD (exExt0.fmtD x) = ({ exExt0 with d2f := fun _ => 1, f2d := fun _ => 2 } : Ext).parseD
+    (({ exExt0 with d2f := fun _ => 1, f2d := fun _ => 2 } : Ext).fmtD x) := fun _ => rfl
+
+/-! ## every table the library can hold and write: one hypothesis -/
+
+/-- `Accepted` (shape invariants of the object, `DimsWF`, machine sizes, `write_key`'s tests for the aux entries,
+    see `PsV/Proofs/FitsAccepted.lean`) implies all the technical hypotheses used above. -/
+theorem accepted_storable (E : Ext) (t : Table) (h : Accepted E t) : Storable t ∧ DimsWF t ∧ Encodable E t :=
+  ⟨⟨h.ndim_pos, h.ndim_le, h.knots_len, h.naxes_len, h.knots_ne, h.strides_rm, h.coef_len, h.order_lt,
+    h.extents_len, h.periods_len, h.aux_storable⟩, h.dims, h.encodable⟩
+
+example (E : Ext) : Accepted E exAccepted := exAccepted_ok E
+
+/-- The aux hypothesis of `Accepted` is what `splinetable::write_key` lets through: every standard-keyword entry the
+    model of `write_key` accepts (`PsV.Aux.validate`, the definition the C16 driver runs against the real `write_key`,
+    constants regenerated from the source) satisfies `WriteKeyOK`.  So an aux store built through the public API is
+    covered as soon as it holds no `EXTNAME` / `HDUNAME` / `HIERARCH` key (and no long, HIERARCH-convention key: C16). -/
+theorem write_key_entries_accepted (key val : Str) (hv : Aux.validate key val = none) (h8 : key.length ≤ 8) :
+    WriteKeyOK key val :=
+  writeKeyOK_of_validate key val hv h8
+
+example : Aux.validate "REMARK".toList "it's ''".toList = none ∧ "REMARK".toList.length ≤ 8 := by decide
+
+/-- **C06 for every accepted table, end to end**: the bytes in the documented layout are what the encoder writes;
+    they decode to the store `write_fits_core` built; the repaired reader reads that store as a table with every field
+    equal bit for bit (aux values followed by the blanks of the FITS padding rule; periods as `parseD ∘ fmtD` makes
+    them). -/
+theorem C06_accepted_roundtrip (E : Ext) (t : Table) (h : Accepted E t) :
+    encodeFits (writeCore E t) = Layout.layoutBytes E t ∧
+    ∃ t', (decodeFits (Layout.layoutBytes E t)).map (readFixed E) = some (.ok t') ∧ Reread E t t' ∧
+      ∀ p, t.periods = some p → t'.periods = some (p.map fun x => (E.parseD (E.fmtD x)).getD 0) := by
+  obtain ⟨hS, hW, hE⟩ := accepted_storable E t h
+  have hlay := encoder_meets_layout E t hS hE
+  obtain ⟨t', ht', hre, hper⟩ := period_text_roundtrip E t hS
+  have hfix : readFixed E (writeCore E t) = .ok t' := by
+    refine readFixed_complete' E _ t' ht' ?_
+    obtain ⟨ho, hk, hn, _⟩ := hre
+    intro i hi
+    have hi' : i < t.ndim := by simpa [Table.ndim, ho] using hi
+    rw [ho, hk, hn]; exact hW i hi'
+  refine ⟨hlay, t', ?_, hre, fun p hp => (hper p hp).1⟩
+  rw [← hlay, written_bytes_decode E t hE]
+  exact congrArg some hfix
+
+example (E : Ext) : Accepted E exAccepted := exAccepted_ok E
+
+/-! ## the remaining hypotheses are needed (concrete witnesses; the first one is a finding about the library) -/
+
+/-- `exAccepted` with the aux entry `EXTNAME = KNOTS0` — which `write_key` accepts -/
+def exExtname : Table := { exAccepted with aux := [("EXTNAME".toList, "KNOTS0".toList)] }
+
+/-- **An auxiliary key `EXTNAME` breaks the round trip** (confirmed on the real library: `write_key("EXTNAME","KNOTS0")`
+    succeeds, `write_fits_mem` succeeds, `read_fits_mem` throws "inconsistent numbers of knots (13) and coefficients").
+    The card lands in the primary header, `fits_movnam_hdu("KNOTS0")` starts at the primary HDU and takes it for the
+    knot extension: the repaired reader rejects the file; the reader before the validation returned the coefficients,
+    converted to double, as the knot vector. -/
+theorem aux_extname_breaks_roundtrip (E : Ext) :
+    readFixed E (writeCore E exExtname) = .error (.invalid 0 1) ∧
+    (∃ t', readCore E (writeCore E exExtname) = .ok t' ∧ t'.knots = [exExtname.coef.map E.f2d]) ∧
+    [exExtname.coef.map E.f2d] ≠ exExtname.knots := by
+  refine ⟨rfl, ⟨_, rfl, rfl⟩, fun h => ?_⟩
+  have := congrArg (fun l => l.map List.length) h
+  simp [exExtname, exAccepted] at this
+
+/-- An order of 2^31 or more is written through `int*` as a negative number, which `fits_read_key(TUINT)` refuses. -/
+theorem order_2p31_not_read (E : Ext) :
+    readCore E (writeCore E { exAccepted with order := [2147483648] }) = .error (.order 0) := rfl
 
 end PsV
